@@ -41,6 +41,9 @@ def cases(tier, seed):
     for t in range(30 if thorough else 10):  # nearly symmetric but beyond np.allclose's 1e-5 relative tolerance: must be treated as directed
         out.append({'kind': 'prop', 'n': int(rs.randint(3, 10)), 'sym': True, 'dens': float(rs.choice([.6, 1.0])), 'wk': 'real',
                     'diag': False, 'ms': int(rs.randint(1 << 30)), 'nearsym': float(rs.choice([1e-3, 3e-2]))})
+    for t in range(24 if thorough else 8):  # self-connections 1e9..1e13 times larger than any difference between W and its transpose
+        out.append({'kind': 'prop', 'n': int(rs.randint(2, 9)), 'sym': False, 'dens': float(rs.choice([.6, 1.0])), 'wk': ['real', 'int'][t % 2],
+                    'diag': False, 'ms': int(rs.randint(1 << 30)), 'hugediag': float(10.0 ** rs.randint(9, 14))})
     for n in range(2, 17 if thorough else 13):  # dense supports: the rounding boundary decides the count
         for sym in (False, True):
             for wk in ('real', 'int'):
@@ -77,6 +80,8 @@ def make(case):
         np.fill_diagonal(W, 0)
     if case.get('nearsym'):
         W = W * (1.0 + case['nearsym'] * np.triu(rs.rand(n, n), 1))   # perturb the upper triangle only
+    if case.get('hugediag'):
+        W[np.arange(n), np.arange(n)] = case['hugediag'] * (1 + np.arange(n))
     return W * case.get('scale', 1.0)
 
 
@@ -150,6 +155,31 @@ def run_prop(case, bct, REC):
             if tie or exact.denominator == 2:
                 REC.note_nontrivial(PROP, 'prop', W, j)
                 REC.tag(PROP, 'class:tie_at_cut' if tie else 'class:half')
+    # the floats next to a rounding boundary: p x count one ulp below / above m + 1/2.  Judged only where exact
+    # arithmetic on the float p and both float evaluation orders fall on the same side (no legitimate ambiguity).
+    ud = 2 if sym else 1
+    for m in sorted({0, 1, N // 2, max(N - 1, 0)}):
+        if N == 0:
+            break
+        p0 = (m + 0.5) / N
+        for pv in (np.nextafter(p0, 0.0), p0, np.nextafter(p0, 1.0)):
+            pv = float(pv)
+            if not 0.0 <= pv <= 1.0:
+                continue
+            exact = Fraction(pv) * N
+            x = (n * n - n) * pv / ud
+            sides = {half_up(exact), half_up(Fraction(x)), half_up(Fraction(pv * N))}   # exact roundings of the float products
+            if len(sides) != 1:
+                REC.tag(PROP, 'ulp_neighbour_ambiguous_skipped')
+                continue
+            want = min(half_up(exact), existing)
+            REC.tag(PROP, 'exec')
+            ok, X = call(REC, PROP, 'threshold_proportional', bct.threshold_proportional, W.copy(), pv)
+            if ok:
+                kept = (np.asarray(X) != 0)
+                got = int(np.triu(kept, 1).sum()) if sym else int(kept.sum())
+                REC.check(PROP, 'threshold_proportional', 'count', got == want, {'W': W, 'p': repr(pv), 'got_count': got, 'expected_count': want,
+                                                                                   'p_times_count': repr(x)}, ('ulp_neighbour_of_half',))
     for pp in (0.125, 0.5):
         layout_variants_agree(REC, PROP, 'threshold_proportional', bct.threshold_proportional, W, args=(pp,))
     copy_semantics(REC, 'threshold_proportional', bct.threshold_proportional, W, (0.25,), None)
